@@ -5,6 +5,7 @@ import random
 import re
 
 import codec
+import specmap
 import codeccheck
 
 LEAN_MODULES = ["PyAirtouch.Props.C054", "PyAirtouch.Props.C055"]
@@ -57,6 +58,13 @@ def run(ctx, deep=False):
         "mapped to a defined value. The decoders' Lean models are compared with the implementation on the same payloads (C03 run)."
         % (", every 16-bit value of adjacent byte pairs" if thorough else ""))
     tally = judge_spec(ctx, STATUS_KEYS, thorough=thorough)
+    # the documented not-available sentinels of fields whose public type has no absent value decode to ordinary numbers: the statement
+    # says they decode to absent values ("never decoded to a different defined value") - each is reported under its own key (listed in
+    # known_findings.txt with the exact byte values), so that any other disagreement is still a violation
+    for (key, name), c in sorted(tally.relax.items()):
+        if name.endswith("_HAS_NO_ABSENT_VALUE"):
+            ctx.violation("C05:sentinel:" + name, "%d/%s: %s (%d payloads in this run)" % (key[0], key[1], specmap.RELAXATIONS[name]["why"], c), kind="input",
+                          mismatch_class=name, implementation_output="a number", spec_verdict="not available")
     for cls, (count, example) in sorted(tally.classes.items()):
         ctx.violation("C05:" + slug(cls), "vendor reading differs from the implementation's decoding: %s (%d cases), e.g. %s" % (cls, count, example[:500]),
                       kind="input", mismatch_class=cls, example=example, implementation_output=example, spec_verdict=cls)
